@@ -166,7 +166,7 @@ var IntentKinds = []string{
 
 // SpecificIntentKinds are the version-specific kinds generic ones resolve to.
 var SpecificIntentKinds = []string{
-	"v1pay", "v1sf", "v1form", "v1rev", "v1proof",
+	"v1pay", "v1merge", "v1sf", "v1form", "v1rev", "v1proof",
 	"v2pay", "v2merge", "v2sf", "v2form", "v2rev", "v2renew", "v2proof", "v2expire", "v2attest", "v2foundation", "v2arb",
 }
 
@@ -418,7 +418,7 @@ func (bb *BlockBuilder) Add(in Intent) bool {
 	who, to := mod(in.Who, NumActors), mod(in.To, NumActors)
 	bb.serial++
 	switch in.Kind {
-	case "pay", "sf", "form", "attest", "foundation", "arb":
+	case "pay", "sf", "form", "attest", "foundation", "arb", "merge":
 		v2 := in.V2
 		if v2 && !bb.v2Allowed() {
 			v2 = false
@@ -546,6 +546,50 @@ func (bb *BlockBuilder) Add(in Intent) bool {
 		if in.Bad == 2 {
 			txn.Signatures[0].Signature[3] ^= 0x40
 		}
+		bb.addV1(txn, in.Kind)
+		return true
+
+	case "v1merge":
+		// two inputs (outputs created earlier in the block preferred when Eph is
+		// set), one or two outputs: diamond-shaped dependencies among v1 sets
+		if !bb.v1Allowed() {
+			bb.skip(in, "regime")
+			return false
+		}
+		type cand struct {
+			id  types.SiacoinOutputID
+			out types.SiacoinOutput
+		}
+		var ins []cand
+		if in.Eph {
+			for _, i := range bb.ephCandidates(who, false) {
+				ins = append(ins, cand{bb.eph[i].id, bb.eph[i].out})
+			}
+		}
+		for _, e := range bb.scCandidates(who) {
+			ins = append(ins, cand{e.ID, e.SiacoinOutput})
+		}
+		if len(ins) < 2 {
+			bb.skip(in, "no-input")
+			return false
+		}
+		a := mod(in.Pick, len(ins))
+		b := mod(in.Pick+1+mod(in.A, len(ins)-1), len(ins))
+		if a == b {
+			b = mod(a+1, len(ins))
+		}
+		sum := ins[a].out.Value.Add(ins[b].out.Value)
+		amt := amountOf(sum, in.Amt)
+		if amt.IsZero() {
+			bb.skip(in, "dust")
+			return false
+		}
+		txn := types.Transaction{SiacoinInputs: []types.SiacoinInput{{ParentID: ins[a].id, UnlockConditions: Actors[who].UC}, {ParentID: ins[b].id, UnlockConditions: Actors[who].UC}}}
+		txn.SiacoinOutputs = append(txn.SiacoinOutputs, types.SiacoinOutput{Address: Actors[to].Addr, Value: amt})
+		if r := sum.Sub(amt); !r.IsZero() {
+			txn.SiacoinOutputs = append(txn.SiacoinOutputs, types.SiacoinOutput{Address: Actors[who].Addr, Value: r})
+		}
+		signV1(cs, &txn, map[types.Hash256]int{types.Hash256(ins[a].id): who, types.Hash256(ins[b].id): who})
 		bb.addV1(txn, in.Kind)
 		return true
 
